@@ -29,7 +29,7 @@ def gen(rng):
     for _ in range(rng.randint(1, 2)):
         offs.append(offs[-1] + rng.choice([1, 3, 6, 24, 30]))
     levels = [1000.] + sorted(rng.sample([925., 850., 700., 500.], nlev - 1), reverse=True)
-    t0 = rng.choice([[1995, 10, 16, 0], [2003, 12, 31, 18], [2012, 2, 28, 12]])
+    t0 = rng.choice([[1995, 10, 16, 0], [2003, 12, 31, 18], [2012, 2, 28, 12], [1999, 12, 31, 18], [1999, 12, 31, 21]])   # also across the 1999/2000 new year
     fields = {}
     for ti in range(len(offs)):
         for li in range(nlev):
